@@ -553,6 +553,7 @@ func main() {
 		} else {
 			miss("size.unitToValues not found")
 		}
+		sort.Strings(items) // a Go map literal is unordered: emit its entries in a canonical order
 		w("def size_unitToValues : List (List Nat × Nat) := [%s]", strings.Join(items, ", "))
 		items = nil
 		if cl, ok := z.vars["zeroUnits"].(*ast.CompositeLit); ok {
@@ -563,6 +564,7 @@ func main() {
 		} else {
 			miss("size.zeroUnits not found")
 		}
+		sort.Strings(items)
 		w("def size_zeroUnits : List (List Nat) := [%s]", strings.Join(items, ", "))
 	}
 	w("def size_MaxInputLength : Nat := %s", z.varInt("MaxInputLength"))
